@@ -19,6 +19,50 @@ pub trait Elem: vecdb::VecValue + Bytes + Copy + PartialEq + 'static {
     fn show(&self) -> String {
         format!("{self:?}")
     }
+    /// min/max/sum paths (numeric types only)
+    fn check_aggs<R: vecdb::ReadableVec<usize, Self>>(_r: &R, _what: &str, _from: usize, _to: usize, _want: &[Self]) -> Result<(), String> {
+        Ok(())
+    }
+}
+
+macro_rules! aggs_impl {
+    ($t:ty, $add:expr) => {
+        fn check_aggs<R: vecdb::ReadableVec<usize, Self>>(r: &R, what: &str, from: usize, to: usize, want: &[Self]) -> Result<(), String> {
+            let min = want.iter().copied().fold(None, |acc: Option<$t>, v| match acc {
+                Some(cur) if cur <= v => Some(cur),
+                _ => Some(v),
+            });
+            let max = want.iter().copied().fold(None, |acc: Option<$t>, v| match acc {
+                Some(cur) if cur >= v => Some(cur),
+                _ => Some(v),
+            });
+            let add: fn($t, $t) -> $t = $add;
+            let sum = if want.is_empty() { None } else { Some(want.iter().copied().fold(<$t>::from(0u8), add)) };
+            // NaN payload/sign of a floating sum is not specified: any NaN equals any NaN
+            #[allow(clippy::eq_op)]
+            let eq = |a: Option<$t>, b: Option<$t>| match (a, b) {
+                (None, None) => true,
+                (Some(x), Some(y)) => x.same(&y) || (x != x && y != y),
+                _ => false,
+            };
+            for (name, got, want) in [
+                ("min_at", r.min_at(from, to), min),
+                ("min", r.min(from, to), min),
+                ("min_dyn", r.min_dyn(from, to), min),
+                ("max_at", r.max_at(from, to), max),
+                ("max", r.max(from, to), max),
+                ("max_dyn", r.max_dyn(from, to), max),
+                ("sum_at", r.sum_at(from, to), sum),
+                ("sum", r.sum(from, to), sum),
+                ("sum_dyn", r.sum_dyn(from, to), sum),
+            ] {
+                if !eq(got, want) {
+                    return crate::vecmodel::reads::fail(format!("{what}: {name}({from}, {to}) = {got:?}, reference fold gives {want:?}"));
+                }
+            }
+            Ok(())
+        }
+    };
 }
 
 macro_rules! int_elem {
@@ -42,6 +86,7 @@ macro_rules! int_elem {
                     }
                 }
             }
+            aggs_impl!($t, |a, b| a.wrapping_add(b));
         }
     )*};
 }
@@ -69,6 +114,7 @@ impl Elem for f32 {
     fn show(&self) -> String {
         format!("{self:?}[{:#x}]", self.to_bits())
     }
+    aggs_impl!(f32, |a, b| a + b);
 }
 
 impl Elem for f64 {
@@ -94,6 +140,7 @@ impl Elem for f64 {
     fn show(&self) -> String {
         format!("{self:?}[{:#x}]", self.to_bits())
     }
+    aggs_impl!(f64, |a, b| a + b);
 }
 
 macro_rules! arr_elem {
